@@ -40,6 +40,9 @@ def f_a(x: TA, y: TA) -> TA: ...
 def f_c(x: TC, y: TC) -> TC: ...
 def f_d(x: TD, y: TD) -> TD: ...
 def f_cl(xs: list[TC], y: TC) -> TC: ...
+def f_opt(x: T | None, y: T) -> T: ...
+def f_or(x: T | list[T], y: T) -> T: ...
+def f_opt1(x: T | None) -> T: ...
 
 
 def g_int(a: int) -> None: ...
@@ -70,6 +73,9 @@ SIGS = {
     "f_c": (f_c, ["s", "s"], True),
     "f_d": (f_d, ["s", "s"], True),
     "f_cl": (f_cl, ["l", "s"], False),
+    "f_opt": (f_opt, ["s", "s"], False),
+    "f_or": (f_or, ["sl", "s"], False),
+    "f_opt1": (f_opt1, ["s"], False),
 }
 
 # what the harness knows about the declarations, independently of pyanalyze's bound generation
@@ -82,6 +88,7 @@ BARE = {
     "f_xy": {0: "~T", 1: "~T"}, "f_xyz": {0: "~T", 1: "~T", 2: "~T"}, "f_list": {1: "~T"}, "f_seq": {1: "~T"},
     "f_dict": {1: "~K"}, "f_cb": {0: "~T"}, "f_cbx": {2: "~T"}, "f_b": {0: "~TB", 1: "~TB"}, "f_a": {0: "~TA", 1: "~TA"},
     "f_c": {0: "~TC", 1: "~TC"}, "f_d": {0: "~TD", 1: "~TD"}, "f_cl": {1: "~TC"},
+    "f_opt": {1: "~T"}, "f_or": {1: "~T"},
 }
 
 # argument pools: name -> constructor of the pyanalyze Value (built lazily)
@@ -89,7 +96,7 @@ SCALARS = ["k1", "kTrue", "ka", "k1_5", "kNone", "t_int", "t_str", "t_float", "t
 LISTS = ["l_int", "l_str", "l_bool", "l_obj", "l_lit1", "l_lit1a", "l_empty", "l_A", "l_B", "tup_int", "k_list12", "any"]
 DICTS = ["d_str_int", "d_int_str", "d_lit", "any"]
 CALLBACKS = ["g_int", "g_str", "g_obj", "g_float", "g_bool", "g_int_str", "any"]
-POOLS = {"s": SCALARS, "l": LISTS, "d": DICTS, "c": CALLBACKS}
+POOLS = {"s": SCALARS, "l": LISTS, "d": DICTS, "c": CALLBACKS, "sl": SCALARS + LISTS}
 
 # arguments that mostly fit a signature's declaration (used for 70% of the draws, so that the
 # bounded / constrained signatures are not almost always rejected)
